@@ -169,7 +169,14 @@ def build_model_staged(model, val, hist):
       narrow-first               first state is the problem  min lhs-rhs of constraint 0  s.t. constraint 0  (it may see
                                  fewer variables, in other columns); then the objective is set and the other constraints added"""
     from optyx import Problem
-    b = Build(val, bounds={k: tuple(cval(x, val) if x is not None else None for x in v) for k, v in model.get("bounds", {}).items()},
+    bval = val
+    if hist == "param-update":
+        # 'param-update': the model is built and solved at OLD parameter values (val[name + "@old"]); finish() sets every
+        # parameter to its current value val[name]
+        bval = dict(val)
+        for n_ in model_names(model)["params"]:
+            bval[n_] = val[n_ + "@old"]
+    b = Build(bval, bounds={k: tuple(cval(x, val) if x is not None else None for x in v) for k, v in model.get("bounds", {}).items()},
               domains=model.get("domains", {}))
     rs = [model["obj"]] + [c[1] for c in model["cons"]] + [c[2] for c in model["cons"]]
     for r in rs:
@@ -201,6 +208,9 @@ def build_model_staged(model, val, hist):
         p.subject_to(c)
 
     def finish():
+        if hist == "param-update":
+            for n_, po in b.params.items():
+                po.set(val[n_])
         if hist in ("flip-sense", "reobj", "readd-same-objective", "narrow-first"):
             setter(model["sense"])(obj)
         for c in late:
@@ -367,6 +377,8 @@ def solve_models(tier="quick"):
     npb = {"x": (("np", "int64", 0), ("np", "int32", 2)), "y": (("np", "float32", -1.0), ("py", "int", 3))}
     add("nlp-npbounds", quad, "min", [("ge", ("bin", "+", X, Y), ("num", S("r0")))], npb)
     add("nlp-param", ("bin", "+", ("bin", "*", ("param", "p"), X), sq(X)), "min", [("le", X, ("param", "p2"))], bx)
+    add("nlp-param-coef-con", quad, "min", [("le", ("bin", "+", ("bin", "*", ("param", "p"), X), Y), ("num", S("r0"))), ("ge", ("bin", "-", X, ("bin", "*", ("param", "p2"), Y)), ("num", S("r1")))], nb)
+    add("nlp-param-coef-obj", ("bin", "+", ("bin", "*", ("param", "p"), X), ("bin", "*", ("param", "p2"), Y)), "max", [("le", ("bin", "+", sq(X), sq(Y)), ("param", "p"))], bx)
     add("nlp-con-nonlinear", ("bin", "+", X, Y), "min", [("le", ("bin", "+", sq(X), sq(Y)), ("num", S("r0")))], bx)
     add("nlp-matrix", ("fro", ("mat", "A", 2, 2)), "min", [("ge", ("trace", ("mat", "A", 2, 2)), ("num", S("r0")))], {"A": (S("lA"), None)})
     # --- linear models (LP route on auto)
